@@ -19,7 +19,11 @@ One_Place == {"own"}
 
 \* recognition: prefixes x placements with one or two simple atoms
 All_Prefixes == {"xdoctest: ", "doctest: ", "xdoc: ", "doc: ", "XDOCTEST: ", "Doctest:", "xdoctest:    ", "xdoctest : ", "notdoctest: ", "xdoctest ", "doctests: "}
-All_Places == {"own", "trailing", "continuation", "instring"}
+All_Places == {"own", "trailing", "continuation", "afterblank", "instring"}
+\* the standard module's option comments (C20): standard prefix, inline placements, options both modules know
+Std_Prefix == {"doctest: "}
+Std_Places == {"trailing", "continuation", "afterblank"}
+Std_Atoms == {A("+", "SKIP", <<>>, FALSE), A("-", "SKIP", <<>>, FALSE), A("+", "ELLIPSIS", <<>>, FALSE), A("+", "SKIP", <<>>, TRUE)}
 Recog_Atoms == {A("+", "SKIP", <<>>, FALSE), A("", "skip", <<>>, FALSE), A("+", "REQUIRES", <<"module:xdv_nope">>, FALSE),
                 A("-", "ELLIPSIS", <<>>, FALSE), A("+", "REQUIRES", <<"bogus">>, FALSE)}
 
